@@ -133,6 +133,12 @@ var c17Cases = []c17Case{
 	{name: "cut", grammar: "s(X) --> [X], !, t. s(none) --> []. t --> [k0]. t --> [].", queries: []string{"phrase(s(A), [i0, i1]).", "phrase(s(A), [i0]).", "phrase(s(A), [i0, i1], R).", "phrase(s(A), [])."}},
 	{name: "cut-commits-alternative", grammar: "s(one) --> [k0], !. s(two) --> [_]. s(three) --> [].", queries: []string{"phrase(s(A), [i0]).", "phrase(s(A), [i0], R).", "phrase(s(A), [])."}},
 	{name: "cut-after-nondeterministic", grammar: "s(X) --> t(X), !, [k1]. s(zzz) --> [_, _]. t(k0) --> [k0]. t(any) --> [_].", queries: []string{"phrase(s(A), [i0, i1])."}},
+	// steadfastness: committing constructs at the end of a body must not see the caller's remainder
+	{name: "cut-last-after-nondeterministic", grammar: "a --> b, !. b --> [k0]. b --> [k0, k0].", queries: []string{"phrase(a, [i0, i1]).", "phrase(a, [i0, i1], R).", "phrase(a, [i0, i1], []).", "phrase(a, L)."}},
+	{name: "curly-cut-last", grammar: "a --> b, {!}. b --> [k0]. b --> [k0, k1].", queries: []string{"phrase(a, [i0, i1]).", "phrase(a, [i0, i1], R)."}},
+	{name: "empty-last-after-nondeterministic", grammar: "a --> b, []. b --> [k0]. b --> [k0, k0].", queries: []string{"phrase(a, [i0, i1]).", "phrase(a, [i0, i1], R)."}},
+	{name: "negation-last", grammar: "a --> b, \\+ [k1]. b --> [k0]. b --> [k0, k0].", queries: []string{"phrase(a, [i0, i1]).", "phrase(a, [i0, i1], R).", "phrase(a, [i0, i1, i2], R)."}},
+	{name: "cut-last-in-chain", grammar: "s --> a. a --> b, !. b --> [k0]. b --> [k0, k0].", queries: []string{"phrase(s, [i0, i1]).", "phrase((b, !), [i0, i1])."}},
 	{name: "call1", grammar: "s --> call(t), [k1]. t([k0|R], R). t(R, R).", queries: []string{"phrase(s, [i0, i1]).", "phrase(s, [i0]).", "phrase(s, L)."}},
 	{name: "call2", grammar: "s(X) --> call(t, X). t(k0, [k0|R], R). t(k1, [k1, k1|R], R).", queries: []string{"phrase(s(A), [i0]).", "phrase(s(A), [i0, i1]).", "phrase(s(A), L, [])."}},
 	{name: "var-body", grammar: "s(G) --> G, [k1]. t --> [k0].", queries: []string{"phrase(s(t), [i0, i1]).", "phrase(s([k0]), [i0, i1]).", "phrase(s(([k0] ; [k1])), [i0, i1])."}},
